@@ -294,6 +294,7 @@ func verifSpecCL(lowered string) primitive.ConsistencyLevel {
 //@   after frame.RawCodec.ConvertToRawFrame#1 set $ovConvErr = (result1 != nil)
 //@   ensures reencoded: !$ovConvErr ==> typeis(result, *frame.RawFrame) && fresh(as(result, *frame.RawFrame)) && as(result, *frame.RawFrame).Header == raw.Header && raw.Header.BodyLength == len(as(result, *frame.RawFrame).Body) && $convertedBody == body
 //@   ensures well-framed: typeis(result, *frame.Frame) ==> $ovConvErr
+//@   ensures made-for-this-request: fresh(result) && (typeis(result, *frame.RawFrame) ==> len(as(result, *frame.RawFrame).Body) == 0 || fresh(as(result, *frame.RawFrame).Body)) [C03]
 //@   ensures raw.Header == old(raw.Header) && raw.Body == old(raw.Body) && body.Message == old(body.Message)
 //@   modifies raw.Header.BodyLength, $convertedBody
 
@@ -320,6 +321,7 @@ func verifSpecCL(lowered string) primitive.ConsistencyLevel {
 //@   ensures execute-consistency: typeis(body.Message, *codecs.PartialExecute) && e != nil ==> e.Consistency == ite($ovAsked && $ovIn, override, old(e.Consistency)) && e.QueryId == old(e.QueryId) && e.ResultMetadataId == old(e.ResultMetadataId) && e.Parameters == old(e.Parameters)
 //@   ensures batch-consistency: typeis(body.Message, *codecs.PartialBatch) && b != nil ==> b.Consistency == ite($ovAsked && $ovIn, override, old(b.Consistency)) && b.Type == old(b.Type) && b.Queries == old(b.Queries) && b.Parameters == old(b.Parameters)
 //@   ensures well-framed: typeis(frm, *frame.Frame) ==> $ovConvErr
+//@   ensures the-frame-or-one-made-for-it: (typeis(frm, *frame.RawFrame) && as(frm, *frame.RawFrame) == raw) || (fresh(frm) && (typeis(frm, *frame.RawFrame) ==> len(as(frm, *frame.RawFrame).Body) == 0 || fresh(as(frm, *frame.RawFrame).Body))) [C03]
 //@   ensures raw.Header == old(raw.Header) && raw.Body == old(raw.Body) && body.Message == old(body.Message)
 //@   modifies q.Consistency, e.Consistency, b.Consistency, raw.Header.BodyLength, $convertedBody
 
@@ -332,6 +334,8 @@ func verifSpecCL(lowered string) primitive.ConsistencyLevel {
 //@   ensures c.$sent >= old(c.$sent) && $reqStarted >= old($reqStarted)
 //@   ensures request-identity: $reqStarted == old($reqStarted) + 1 ==> fresh($lastReq) && $lastReq.client == c && $lastReq.stream == old(raw.Header.StreamId) && $lastReq.version == old(raw.Header.Version)
 //@   ensures error-identity: c.$sent == old(c.$sent) + 1 ==> $lastClient == c && $lastStream == old(raw.Header.StreamId) && $lastVersion == old(raw.Header.Version) && typeis($lastMsg, *message.ServerError)
+// C03: the request carries the frame it was created for, or a frame made for it (consistency override)
+//@   ensures request-frame: $reqStarted == old($reqStarted) + 1 ==> (valof($lastReq.frm) == ref(raw) && typeis($lastReq.frm, *frame.RawFrame)) || (fresh($lastReq.frm) && (typeis($lastReq.frm, *frame.RawFrame) ==> len(as($lastReq.frm, *frame.RawFrame).Body) == 0 || fresh(as($lastReq.frm, *frame.RawFrame).Body))) [C03]
 //@   modifies c.proxy.sessions[*], as(body.Message, *codecs.PartialQuery).Consistency, as(body.Message, *codecs.PartialExecute).Consistency, as(body.Message, *codecs.PartialBatch).Consistency, raw.Header.BodyLength, c.$sent, $reqStarted, $lastReq, $lastMsg, $lastStream, $lastVersion, $lastClient, $sends, $convertedBody, any(proxycore.ClientConn).inflight, any(proxycore.pendingRequests).$has, any(proxycore.pendingRequests).$tag, any(proxycore.pendingRequests).$val
 
 // ---------------------------------------------------------------------------------------------
@@ -534,6 +538,7 @@ func verifSpecCL(lowered string) primitive.ConsistencyLevel {
 //@   ensures local: $qhHandled ==> c.$executed == old(c.$executed) && c.$sent == old(c.$sent) + 1 && $reqStarted == old($reqStarted)
 //@   ensures forwarded: !$qhHandled ==> c.$executed == old(c.$executed) + 1
 //@   ensures one-answer: (c.$sent - old(c.$sent)) + ($reqStarted - old($reqStarted)) == 1 && c.$sent >= old(c.$sent) && $reqStarted >= old($reqStarted)
+//@   ensures request-frame: $reqStarted == old($reqStarted) + 1 ==> (valof($lastReq.frm) == ref(raw) && typeis($lastReq.frm, *frame.RawFrame)) || (fresh($lastReq.frm) && (typeis($lastReq.frm, *frame.RawFrame) ==> len(as($lastReq.frm, *frame.RawFrame).Body) == 0 || fresh(as($lastReq.frm, *frame.RawFrame).Body))) [C03]
 //@   ensures on-stream: c.$sent == old(c.$sent) + 1 ==> $lastClient == c && $lastStream == old(raw.Header.StreamId)
 //@   modifies *, c.$sent, c.$executed, $reqStarted, $sends, $convertedBody, $lastReq, $lastMsg, $lastStream, $lastVersion, $lastClient, $qhHandled, $selReached, $selDot, $selErr, $selQual, $selTable, $useTried, $useOK, $useKs, $useVersion, $useCompression, any(proxycore.ClientConn).inflight, any(proxycore.pendingRequests).$has, any(proxycore.pendingRequests).$tag, any(proxycore.pendingRequests).$val
 
@@ -545,6 +550,7 @@ func verifSpecCL(lowered string) primitive.ConsistencyLevel {
 //@   ensures local: $qhHandled ==> c.$executed == old(c.$executed) && c.$sent == old(c.$sent) + 1 && $reqStarted == old($reqStarted)
 //@   ensures forwarded: !$qhHandled ==> c.$executed == old(c.$executed) + 1
 //@   ensures one-answer: (c.$sent - old(c.$sent)) + ($reqStarted - old($reqStarted)) == 1 && c.$sent >= old(c.$sent) && $reqStarted >= old($reqStarted)
+//@   ensures request-frame: $reqStarted == old($reqStarted) + 1 ==> (valof($lastReq.frm) == ref(raw) && typeis($lastReq.frm, *frame.RawFrame)) || (fresh($lastReq.frm) && (typeis($lastReq.frm, *frame.RawFrame) ==> len(as($lastReq.frm, *frame.RawFrame).Body) == 0 || fresh(as($lastReq.frm, *frame.RawFrame).Body))) [C03]
 //@   ensures on-stream: c.$sent == old(c.$sent) + 1 ==> $lastClient == c && $lastStream == old(raw.Header.StreamId)
 //@   modifies *, c.preparedSystemQuery[*], c.$sent, c.$executed, $reqStarted, $sends, $convertedBody, $lastReq, $lastMsg, $lastStream, $lastVersion, $lastClient, $qhHandled, $selReached, $selDot, $selErr, $selQual, $selTable, any(proxycore.ClientConn).inflight, any(proxycore.pendingRequests).$has, any(proxycore.pendingRequests).$tag, any(proxycore.pendingRequests).$val
 
@@ -561,6 +567,7 @@ func verifSpecCL(lowered string) primitive.ConsistencyLevel {
 //@   ensures local: $exLocal ==> c.$executed == old(c.$executed) && c.$sent == old(c.$sent) + 1 && $reqStarted == old($reqStarted)
 //@   ensures forwarded: !$exLocal ==> c.$executed == old(c.$executed) + 1
 //@   ensures one-answer: (c.$sent - old(c.$sent)) + ($reqStarted - old($reqStarted)) == 1 && c.$sent >= old(c.$sent) && $reqStarted >= old($reqStarted)
+//@   ensures request-frame: $reqStarted == old($reqStarted) + 1 ==> (valof($lastReq.frm) == ref(raw) && typeis($lastReq.frm, *frame.RawFrame)) || (fresh($lastReq.frm) && (typeis($lastReq.frm, *frame.RawFrame) ==> len(as($lastReq.frm, *frame.RawFrame).Body) == 0 || fresh(as($lastReq.frm, *frame.RawFrame).Body))) [C03]
 //@   modifies *, c.$sent, c.$executed, $reqStarted, $sends, $convertedBody, $lastReq, $lastMsg, $lastStream, $lastVersion, $lastClient, $exId, $exLocal, $useTried, $useOK, $useKs, $useVersion, $useCompression, any(proxycore.ClientConn).inflight, any(proxycore.pendingRequests).$has, any(proxycore.pendingRequests).$tag, any(proxycore.pendingRequests).$val
 
 //@ func proxy.preparedIdKey
@@ -655,6 +662,12 @@ func verifSpecCL(lowered string) primitive.ConsistencyLevel {
 //@   ensures startup-supported-compression: rxStartup() && mapHas(as($rxMsg, *message.Startup).Options, "COMPRESSION") && mapHas(codecs.CustomRawCodecsWithCompression, strings.ToLower(rxWanted())) ==> typeis($lastMsg, *message.Ready) && c.codec == mapGet(codecs.CustomRawCodecsWithCompression, strings.ToLower(rxWanted())) && c.compression == rxWanted() [C13]
 //@   ensures startup-without-compression: rxStartup() && !mapHas(as($rxMsg, *message.Startup).Options, "COMPRESSION") ==> typeis($lastMsg, *message.Ready) && c.codec == old(c.codec) && c.compression == old(c.compression) [C13]
 //@   ensures only-startup-switches: !rxStartup() ==> c.codec == old(c.codec) && c.compression == old(c.compression) [C13]
+// C03: the frame a forwarded request carries to the backend owns its body: frame and body array were
+// made while this frame was being received (decoded, or re-encoded for a consistency override). A body
+// that aliases anything older - a per-connection buffer, say - is overwritten by later frames while the
+// request is still queued, in flight or being retried.
+//@   ensures forwarded-frame-is-new: $reqStarted == old($reqStarted) + 1 && typeis($lastReq.frm, *frame.RawFrame) ==> fresh(as($lastReq.frm, *frame.RawFrame)) [C03]
+//@   ensures forwarded-frame-owns-its-body: $reqStarted == old($reqStarted) + 1 && typeis($lastReq.frm, *frame.RawFrame) ==> len(as($lastReq.frm, *frame.RawFrame).Body) == 0 || fresh(as($lastReq.frm, *frame.RawFrame).Body) [C03]
 //@   ensures only-register-registers: !($rxBodyTried && $rxBodyOK && typeis($rxMsg, *message.Register)) ==> c.$registered == old(c.$registered)
 //@   modifies *, c.codec, c.compression, $rxCodec, c.preparedSystemQuery[*], c.$registered, c.$sent, c.$executed, $reqStarted, $sends, $convertedBody, $lastReq, $lastMsg, $lastStream, $lastVersion, $lastClient, $qhHandled, $selReached, $selDot, $selErr, $selQual, $selTable, $exId, $exLocal, $useTried, $useOK, $useKs, $useVersion, $useCompression, $rxDecoded, $rxVersion, $rxStream, $rxBodyTried, $rxBodyOK, $rxMsg, any(proxycore.ClientConn).inflight, any(proxycore.pendingRequests).$has, any(proxycore.pendingRequests).$tag, any(proxycore.pendingRequests).$val
 
